@@ -131,7 +131,7 @@ def replay_readonly(cex, d):
     kind, mut, how = fx['kind'], fx['mut'], fx['how']
     n, l2, k = int(fx['n']), int(fx.get('l2', 0)), int(fx['k'])
     if max(n, l2, k) > 3000:
-        return {'reproduced': False, 'detail': 'too large'}
+        return {'reproduced': False, 'skip': True, 'detail': 'too large'}
     atom = tuple(fx.get('atom', ()))
     md = {'k': 1, 'z': [1, 2]} if fx.get('withmeta') else None
 
